@@ -35,12 +35,12 @@ fn p(s: &str) -> u64 { u64::from_str_radix(s, 16).unwrap() }
 
 // ---- producer side ------------------------------------------------------------
 
-/// resource key -> (logical stream, fail after k bytes)
-fn streams() -> &'static Mutex<HashMap<String, (Arc<Vec<u8>>, Option<usize>)>> {
-    static S: OnceLock<Mutex<HashMap<String, (Arc<Vec<u8>>, Option<usize>)>>> = OnceLock::new();
+/// resource key -> (logical stream, fail after k bytes; by a panic of the body writer instead of an error)
+fn streams() -> &'static Mutex<HashMap<String, (Arc<Vec<u8>>, Option<(usize, bool)>)>> {
+    static S: OnceLock<Mutex<HashMap<String, (Arc<Vec<u8>>, Option<(usize, bool)>)>>> = OnceLock::new();
     S.get_or_init(|| Mutex::new(HashMap::new()))
 }
-fn register(data: &[u8], fail: Option<usize>) -> String {
+fn register(data: &[u8], fail: Option<(usize, bool)>) -> String {
     static N: AtomicU64 = AtomicU64::new(0);
     let key = format!("r{}", N.fetch_add(1, Ordering::Relaxed));
     streams().lock().unwrap().insert(key.clone(), (Arc::new(data.to_vec()), fail));
@@ -55,7 +55,8 @@ fn router(chunk: usize, comp: bool) -> Router {
             let (data, fail) = streams().lock().unwrap().get(res).cloned()?;
             Some(move |w: &mut dyn Write| -> std::io::Result<()> {
                 match fail {
-                    Some(k) => { w.write_all(&data[..k.min(data.len())])?; Err(std::io::Error::other("verif: producer fails here")) }
+                    Some((k, false)) => { w.write_all(&data[..k.min(data.len())])?; Err(std::io::Error::other("verif: producer fails here")) }
+                    Some((k, true)) => { w.write_all(&data[..k.min(data.len())])?; panic!("verif: producer panics here") }
                     None => w.write_all(&data),
                 }
             })
@@ -219,13 +220,15 @@ fn encode_val(v: &Val) -> Vec<u8> { let mut out = Vec::new(); beve::to_writer_st
 struct Case {
     pu: String, tr: String, comp: bool, chunk: usize, trailer: usize,
     stream: Vec<u8>, dst: Option<Vec<u8>>, tmp: Option<Vec<u8>>, fault: String,
+    /// a `prod:` failure is a panic of the application's body writer (same expectation: the pull fails)
+    pp: bool,
 }
 fn content(s: &str) -> Option<Vec<u8>> { if s == "absent" { None } else { Some(unhex(s)) } }
 fn show(c: &Option<Vec<u8>>) -> String { match c { None => "absent".into(), Some(b) => hex(b) } }
 fn parse_case(line: &str) -> Case {
     let f = fields(line);
     Case { pu: f["pu"].clone(), tr: f["tr"].clone(), comp: f["comp"] == "1", chunk: p(&f["chunk"]) as usize, trailer: p(&f["trailer"]) as usize,
-           stream: unhex(&f["stream"]), dst: content(&f["dst"]), tmp: content(&f["tmp"]), fault: f["fault"].clone() }
+           stream: unhex(&f["stream"]), dst: content(&f["dst"]), tmp: content(&f["tmp"]), fault: f["fault"].clone(), pp: f.get("pp").map(|s| s == "1").unwrap_or(false) }
 }
 fn is_value(pu: &str) -> bool { pu == "value" || pu == "avalue" }
 
@@ -258,7 +261,7 @@ async fn pull_async<C: AsyncSvsClient>(client: &C, c: &Case, key: &str, dst: &Pa
 /// Run the pull of `c` against freshly looked-up servers; files go to `dir`.
 fn exec_case(c: &Case, dir: &Path) -> Res {
     let dst = dir.join("out.bin");
-    let fail = c.fault.strip_prefix("prod:").map(|k| p(k) as usize);
+    let fail = c.fault.strip_prefix("prod:").map(|k| (p(k) as usize, c.pp));
     let cutq = c.fault.strip_prefix("cut:").map(|j| p(j) as usize + 1); // + the open response
     let reject = c.fault == "reject";
     let (tcp, ws) = match servers(c.chunk, c.comp) { Ok(x) => x, Err(e) => return Res::Crash(format!("setup:servers:{}", e.kind())) };
@@ -607,6 +610,12 @@ fn gen_cases(seed: u64, thorough: bool) -> Vec<String> {
         g.push(pu, tr, comp, chunk, trailer, &stream, &d, &t, &fault);
     }
 
+    // every third producer failure is a panic of the body writer rather than an error it returns
+    // (the same expectation: the pull fails, nothing is published); not for `kill:` child pulls
+    let mut k = 0usize;
+    for l in g.out.iter_mut() {
+        if l.contains(" fault=prod:") { k += 1; if k % 3 == 0 { l.push_str(" pp=1"); } }
+    }
     g.out.into_iter().enumerate().map(|(i, c)| format!("i={i} {c}")).collect()
 }
 
